@@ -62,11 +62,12 @@ TAG_MAP.update(
 
 TYPE_MAP = decoder.TYPE_MAP.copy()
 
-# Put in non-ambiguous types for faster codec lookup
+# Put in non-ambiguous types for faster codec lookup. The codecs of this
+# module's TAG_MAP must replace the less strict ones the copied map holds.
 for typeDecoder in TAG_MAP.values():
     if typeDecoder.protoComponent is not None:
         typeId = typeDecoder.protoComponent.__class__.typeId
-        if typeId is not None and typeId not in TYPE_MAP:
+        if typeId is not None:
             TYPE_MAP[typeId] = typeDecoder
 
 
